@@ -9,9 +9,6 @@
    Monitor codes (implementation only, no model):
      10 credits exceed the pulled amount   11 a negative credit   12 negative pulled amount
      20 warm pull differs from cold pull   21 pull above the remaining supply / pool cap
-     110/111/112 = 10/11/12 inside the trigger region C13.zero_length_cycle
-     120 = 20 inside the trigger region C13.sticky_burnout
-     220/221 = 20/21 inside the trigger region C13.overdrawn_year
      30 cumulative invariant broken (balance < 0 or balance + withdrawn <> matured)
      31 a withdrawal paid more than the matured balance                                  *)
 From Coq Require Import ZArith List Bool.
@@ -61,16 +58,10 @@ Definition pairs_flat (l : list (Z * Z)) : list Z := flat_map (fun p => [fst p; 
 
 Definition flag (c : Z) (ok : bool) : list Z := if ok then [] else [c].
 
-(* One-sided comparison inside a known-trigger region (DESIGN 4): there the implementation may
-   behave like the (defective) model or satisfy the property, so that repairing a known defect in
-   /repo raises no alarm.  A model/implementation difference inside region k is reported as
-   1000*k + code (k = 1 C13.zero_length_cycle, 2 C13.sticky_burnout, 3 C13.overdrawn_year); the
-   monitors run everywhere. *)
-Definition region (o : opts) (bt : Z -> Z) (ys : list year) (h : Z) (c0 : cache) : Z :=
-  if zero_len_cycle o bt h then 1
-  else if sticky_burnout c0 then 2
-  else if overdrawn o bt ys h || short_forecast o bt ys h then 3
-  else 0.
+(* One-sided comparison inside a known-trigger region (DESIGN 4): a model/implementation
+   difference inside region k would be reported as 1000*k + code.  All C13 findings are repaired
+   (0cc9fdb, 6bfa5cf, 47bb3a6) and the model is the repaired behaviour: there is no region. *)
+Definition region (o : opts) (bt : Z -> Z) (ys : list year) (h : Z) (c0 : cache) : Z := 0.
 Definition mflag (k c : Z) (ok : bool) : list Z := flag (1000 * k + c) ok.
 
 (* the bound monitor: relative to the model's current year when model and implementation agree on
@@ -94,9 +85,9 @@ Definition check_blk (o : opts) (c : cache) (b : blk) : list Z * cache :=
   let cold_codes :=
     mflag k 1 (Bool.eqb (cres_ok (fst mc)) (ob_cold_ok b) && (negb (ob_cold_ok b) || (cres_z (fst mc) =? ob_cold b)))
     ++ mflag k 7 (Bool.eqb (cres_ok (fst mw)) (ob_pull_ok b) && (negb (ob_pull_ok b) || (cres_z (fst mw) =? ob_pull b)))
-    ++ flag (if sticky_burnout c0 then 120 else if overdrawn o bt (b_years b) (b_h b) then 220 else 20)
+    ++ flag 20
          (Bool.eqb (ob_pull_ok b) (ob_cold_ok b) && (negb (ob_pull_ok b) || (ob_pull b =? ob_cold b)))
-    ++ flag (if overdrawn o bt (b_years b) (b_h b) then 221 else 21)
+    ++ flag 21
          ((b_pool b <? 0) || bound_monitor o (b_years b) (b_pool b) mw (ob_pull_ok b) (ob_pull b)) in
   match fst mw with
   | CErr =>
@@ -127,7 +118,7 @@ Definition check_blk (o : opts) (c : cache) (b : blk) : list Z * cache :=
 (* implementation-only monitor of one block (votes have distinct addresses in every run) *)
 Definition monitor_blk (o : opts) (b : blk) : list Z :=
   let credits := zsum (ob_vals b) + zsum (ob_delegs b) in
-  let k := if zero_len_cycle o (bt_of o b) (b_h b) then 100 else 0 in
+  let k := 0 in
   flag (k + 10) (if ob_pull_ok b then credits <=? ob_pull b else credits =? 0)
   ++ flag (k + 11) (forallb (fun x => 0 <=? x) (ob_vals b ++ ob_delegs b))
   ++ flag (k + 12) (negb (ob_pull_ok b) || (0 <=? ob_pull b)).
@@ -183,11 +174,11 @@ Fixpoint check_psteps (o : opts) (bt : Z -> Z) (ys : list year) (c : cache) (i :
         ++ mflag k 2 (Bool.eqb (cres_ok (fst mw)) (po_warm_ok s) && (negb (po_warm_ok s) || (cres_z (fst mw) =? po_warm s)))
         ++ mflag k 5 (zlist_eqb (years_proj ys') (pairs_flat (po_years s)))
         (* monitors on the observed values *)
-        ++ flag (if sticky_burnout c0 then 120 else if overdrawn o bt ys (p_h s) then 220 else 20)
+        ++ flag 20
              (Bool.eqb (po_warm_ok s) (po_cold_ok s) && (negb (po_warm_ok s) || (po_warm s =? po_cold s)))
-        ++ flag (if overdrawn o bt ys (p_h s) then 221 else 21)
+        ++ flag 21
              (bound_monitor o ys (p_pool s) mw (po_warm_ok s) (po_warm s))
-        ++ flag (if zero_len_cycle o bt (p_h s) then 112 else 12) (negb (po_warm_ok s) || (0 <=? po_warm s)) in
+        ++ flag 12 (negb (po_warm_ok s) || (0 <=? po_warm s)) in
       flat_map (fun code => [i; code]) codes ++ check_psteps o bt (resync ys' (po_years s)) (snd mw) (i + 1) r
   end.
 
